@@ -372,13 +372,14 @@ def r4_substitute_members(repo):
             bad = []
             for c in gens:
                 a0 = c.args[0]
-                base = a0
-                while isinstance(base, (ast.Subscript, ast.Attribute)):
-                    base = base.value
-                defs = g.defs_reaching(base.id, c) if isinstance(base, ast.Name) else []
-                good = bool(defs) and all(isinstance(d[1], ast.Call) and call_name(d[1]) == "substitute_type" and
-                                          src(d[1].args[0]) == "%s.get_type()" % v and src(d[1].args[1]) == mp
-                                          for d in defs)
+                # every value the type expression may take derives from the substituted member type (an element of its
+                # type arguments, the bound of a projection of it: still the substituted type's own components)
+                leaves = [x for x in Prov(f.node, passthrough={"get_bound_rec", "box_type"}).sources(a0, c)
+                          if not isinstance(x, (ast.Attribute, ast.Subscript, ast.Constant)) and
+                          not (isinstance(x, ast.Call) and call_name(x) in ("get_bound_rec", "box_type"))]
+                good = bool(leaves) and all(isinstance(d, ast.Call) and call_name(d) == "substitute_type" and
+                                            len(d.args) >= 2 and src(d.args[0]) == "%s.get_type()" % v and
+                                            src(d.args[1]) == mp for d in leaves)
                 if not good:
                     bad.append("line %d: `%s`" % (c.lineno, src(c)[:60]))
             ok = bool(gens) and not bad
@@ -400,16 +401,33 @@ def _gen_bottom_ok(f, call, type_expr):
     t = src(type_expr)
     if isinstance(type_expr, ast.Subscript):      # vararg element type: the flag is computed on the array type
         t = src(type_expr.value).rsplit(".type_args", 1)[0]
-    d = gb
+    ds = [(gb, call)]
     if isinstance(gb, ast.Name):
-        defs = cfg_of(f.node).defs_reaching(gb.id, call)
-        if len(defs) != 1:
-            return False, "gen_bottom has %d definitions" % len(defs)
-        d = defs[0][1]
-    s = " ".join(src(d).split())
-    need = ["%s.is_wildcard()" % t, "%s.has_wildcards()" % t]
-    ok = all(n in s for n in need)
-    return ok, "gen_bottom = `%s` must test both %s" % (s[:90], need)
+        g = cfg_of(f.node)
+        defs = g.defs_reaching(gb.id, call)
+        if not defs or any(v is None for _d, v, _k in defs):
+            return False, "gen_bottom has no visible definition"
+        ds = [(v, g.stmt(d_)) for d_, v, _k in defs]
+    # the type may reach the call through locals (`elem = t.type_args[0]; if elem.is_wildcard(): elem = elem.get_bound_rec()`):
+    # the flag may be computed on any name of that chain; a definition made where the type is being unwrapped from a
+    # projection (under `<name>.is_wildcard()`) has already answered the first question
+    names = {t}
+    for s_ in Prov(f.node, passthrough={"get_bound_rec", "box_type"}).sources(type_expr, call):
+        if isinstance(s_, ast.AST):
+            names |= {x.id for x in ast.walk(s_) if isinstance(x, ast.Name)}
+    names |= {x.id for x in ast.walk(type_expr) if isinstance(x, ast.Name)}
+    shown = []
+    ok = True
+    for d, st in ds:
+        s = " ".join(src(d).split())
+        shown.append(s[:70])
+        has = any("%s.has_wildcards()" % n in s for n in names)
+        wild = any("%s.is_wildcard()" % n in s for n in names) or \
+            any(pol is True and any(" ".join(src(c_).split()) == "%s.is_wildcard()" % n for n in names)
+                for c_, pol in flat_guards(st, f.node))
+        ok = ok and has and wild
+    return ok, "gen_bottom = %s must test both is_wildcard() and has_wildcards() of the type (names %s)" % (
+        shown, sorted(names)[:6])
 
 
 def r5_wildcard_sinks(repo):
@@ -419,7 +437,10 @@ def r5_wildcard_sinks(repo):
     ok, msg = (False, "assignment value generation not found") if len(c) != 1 else _gen_bottom_ok(f, c[0], c[0].args[0])
     obs.append(Ob("C01-R5", "gen_assignment:bottom-for-wildcard-targets", _w(f), ok, msg))
     f = _m(repo, "_gen_func_call")
-    cs = [x for x in calls_in(f.node) if call_name(x) == "generate_expr" and "expr_type" in src(x.args[0])]
+    pv = Prov(f.node, passthrough={"get_bound_rec", "box_type"})
+    cs = [x for x in calls_in(f.node) if call_name(x) == "generate_expr" and
+          ("expr_type" in src(x.args[0]) or any(isinstance(s_, ast.AST) and "expr_type" in src(s_)
+                                                for s_ in pv.sources(x.args[0], x)))]
     for i, c_ in enumerate(cs):
         ok, msg = _gen_bottom_ok(f, c_, c_.args[0])
         obs.append(Ob("C01-R5", "_gen_func_call:argument#%d:bottom-for-wildcard-parameters" % i, _w(f, c_), ok, msg))
@@ -594,7 +615,7 @@ def r8_call_assembly(repo):
 TYPE_ATTRS = {"param_type", "field_type", "ret_type", "inferred_type", "type_parameters", "params", "bound"}
 
 
-def r9_inherited_members(repo):
+def r9_inherited_members(repo, rid="C01-R9"):
     """Members seen through a subclass are copies of the declared ones with only their types substituted."""
     obs = []
     for name in ("get_callable_functions", "get_abstract_functions", "get_all_fields"):
@@ -620,13 +641,111 @@ def r9_inherited_members(repo):
             attrs = {n.targets[0].attr for n in stores if n.targets[0].value.id == v}
             if len(attrs & {"ret_type", "inferred_type"}) == 1:
                 half.append("%s.%s only" % (v, sorted(attrs & {"ret_type", "inferred_type"})[0]))
-        obs.append(Ob("C01-R9", "%s:declared-and-inferred-type-substituted-together" % name, _w(f), not half,
+        obs.append(Ob(rid, "%s:declared-and-inferred-type-substituted-together" % name, _w(f), not half,
                       "ret_type and inferred_type of a copied function must be written together: %s" % half))
+        # what comes out of the recursion into the superclass enters the result only as its substituted copy
+        rec = [c for c in calls_in(f.node) if call_name(c) == name]
+        prov = Prov(f.node)
+        inherited = {}
+        for n in iter_own_nodes(f.node):
+            gens = [(n.target, n.iter)] if isinstance(n, ast.For) else \
+                [(g_.target, g_.iter) for g_ in n.generators] if isinstance(n, (ast.ListComp, ast.SetComp, ast.GeneratorExp,
+                                                                               ast.DictComp)) else []
+            for tgt, it in gens:
+                if any(any(s_ is c for c in rec) for s_ in prov.sources(it)):
+                    for x in ast.walk(tgt):
+                        if isinstance(x, ast.Name):
+                            inherited[x.id] = n
+        raw = []
+        for c in calls_in(f.node):
+            if not (isinstance(c.func, ast.Attribute) and c.func.attr in ("add", "append", "update", "extend", "insert")):
+                continue
+            for a in c.args:
+                elts = [a.elt] if isinstance(a, (ast.ListComp, ast.SetComp, ast.GeneratorExp)) else [a]
+                for e_ in elts:
+                    if isinstance(e_, ast.Name) and e_.id in inherited and e_.id not in fresh:
+                        raw.append(" ".join(src(c).split())[:70])
+                    elif isinstance(a, ast.Name) and any(any(s_ is k for k in rec) for s_ in prov.sources(a)):
+                        raw.append(" ".join(src(c).split())[:70])
+        for r_ in [n for n in iter_own_nodes(f.node) if isinstance(n, ast.Return) and n.value is not None]:
+            if any(s_ is k for k in rec for s_ in prov.sources(r_.value) if isinstance(s_, ast.AST)) and \
+                    isinstance(r_.value, (ast.Name, ast.Call)) and not any(
+                        isinstance(x, ast.Name) and x.id in fresh for x in ast.walk(r_.value)):
+                if isinstance(r_.value, ast.Call) or r_.value.id not in [src(c.func.value) for c in calls_in(f.node)
+                                                                        if isinstance(c.func, ast.Attribute)]:
+                    raw.append(" ".join(src(r_).split())[:70])
+        obs.append(Ob(rid, "%s:inherited-members-enter-only-as-substituted-copies" % name, _w(f), bool(rec) and not raw,
+                      "what the superclass's %s() returns must be copied and substituted before it joins the result "
+                      "(%d recursive call(s)); raw members added / returned: %s" % (name, len(rec), sorted(set(raw))[:4])))
         ok = bool(fresh) and not rebuilt and not other and not ctor_calls
-        obs.append(Ob("C01-R9", "%s:members-are-deep-copies-with-substituted-types" % name, _w(f), ok,
+        obs.append(Ob(rid, "%s:members-are-deep-copies-with-substituted-types" % name, _w(f), ok,
                       "inherited members must be deepcopy(<member>) with only type attributes reassigned (%s); rebuilding a "
                       "declaration by hand drops attributes such as vararg / default / override: rebuilt %s, constructor calls %s, "
                       "other attributes written %s" % (sorted(TYPE_ATTRS), rebuilt, [src(c)[:40] for c in ctor_calls], other)))
+    return obs
+
+
+# the subtype lattice of the target languages' built-in types (direct or indirect supertypes a built-in may declare);
+# source: Kotlin spec 'Built-in types', Scala 3 reference 'Unified types' (numeric types, Char, Boolean, Unit are AnyVal,
+# not AnyRef and not java.lang.Number), JLS 4.2 / java.lang (wrapper classes extend Number or Object)
+_NUM = ("IntegerType", "ShortType", "LongType", "ByteType", "FloatType", "DoubleType")
+BUILTIN_LATTICE = {
+    "kotlin": dict({"AnyType": set(), "NothingType": set(), "UnitType": {"AnyType"}, "NumberType": {"AnyType"},
+                    "CharType": {"AnyType"}, "StringType": {"AnyType"}, "BooleanType": {"AnyType"},
+                    "ArrayType": {"AnyType"}, "SpecializedArrayType": {"AnyType"}, "FunctionType": {"AnyType"}},
+                   **{n: {"NumberType", "AnyType"} for n in _NUM}),
+    "scala": dict({"AnyType": set(), "NothingType": set(), "AnyRefType": {"AnyType"}, "UnitType": {"AnyType"},
+                   "NumberType": {"AnyRefType", "AnyType"}, "CharType": {"AnyType"}, "BooleanType": {"AnyType"},
+                   "StringType": {"AnyRefType", "AnyType"}, "ArrayType": {"AnyRefType", "AnyType"},
+                   "SeqType": {"AnyRefType", "AnyType"}, "FunctionType": {"AnyRefType", "AnyType"},
+                   "TupleType": {"AnyRefType", "AnyType"}},
+                  **{n: {"AnyType"} for n in _NUM}),
+    "java": dict({"ObjectType": set(), "VoidType": {"ObjectType"}, "NumberType": {"ObjectType"},
+                  "CharType": {"ObjectType"}, "StringType": {"ObjectType"}, "BooleanType": {"ObjectType"},
+                  "ArrayType": {"ObjectType"}, "FunctionType": {"ObjectType"}},
+                 **{n: {"NumberType", "ObjectType"} for n in _NUM}),
+    "groovy": dict({"ObjectType": set(), "VoidType": {"ObjectType"}, "NumberType": {"ObjectType"},
+                    "CharType": {"ObjectType"}, "StringType": {"ObjectType"}, "BooleanType": {"ObjectType"},
+                    "ArrayType": {"ObjectType"}, "FunctionType": {"ObjectType"}},
+                   **{n: {"NumberType", "ObjectType"} for n in _NUM + ("BigIntegerType", "BigDecimalType")}),
+}
+
+
+def r10_builtin_lattice(repo):
+    """The generator takes `Int <: Number` from these tables when it draws a subtype for an expected type; the target
+    compiler takes it from the language.  Every supertype a built-in declares must be one of its supertypes in the
+    language (a missing one only loses diversity, an extra one makes the compiler reject a program the tool calls
+    well-typed)."""
+    obs = []
+    for lang, table in sorted(BUILTIN_LATTICE.items()):
+        mod = repo.module("src.ir.%s_types" % lang)
+        n = 0
+        for c in sorted([c for c in repo.classes.values() if c.module is mod], key=lambda c: c.node.lineno):
+            if c.name.endswith(("Factory", "Builtin")):
+                continue
+            decl = []
+            for m in c.methods.values():
+                for k in calls_in(m.node):
+                    if isinstance(k.func, ast.Attribute) and k.func.attr in ("append", "extend", "insert") and \
+                            "supertypes" in src(k.func.value):
+                        for a in k.args:
+                            for x in ast.walk(a):
+                                if isinstance(x, ast.Call):
+                                    decl.append(call_name(x))
+                for st in iter_own_nodes(m.node):
+                    if isinstance(st, ast.Assign) and any(src(t).endswith(".supertypes") for t in st.targets):
+                        decl += [call_name(x) for x in ast.walk(st.value) if isinstance(x, ast.Call)]
+            if c.name not in table:
+                obs.append(Ob("C01-R10", "%s:%s:not-in-the-language-table" % (lang, c.name), _w(c), True,
+                              "built-in %s is not in the checker's table of %s: its supertypes %s are not judged"
+                              % (c.name, lang, decl), {"judged": False}))
+                continue
+            n += 1
+            extra = sorted(set(decl) - table[c.name] - {"list", "copy", "set", "tuple", "frozenset"})
+            obs.append(Ob("C01-R10", "%s:%s:supertypes-within-the-language" % (lang, c.name), _w(c), not extra,
+                          "%s %s declares the supertypes %s; in %s it is a subtype of %s only - not of %s"
+                          % (lang, c.name, sorted(set(decl)), lang, sorted(table[c.name]) or "nothing", extra)))
+        obs.append(Ob("C01-R10", "%s:built-ins-judged>=12" % lang, mod.relpath, n >= 12, "%d built-ins judged" % n))
     return obs
 
 
@@ -640,7 +759,8 @@ def rules():
         RuleSpec("C01-R6", "inheritance obligations", 5, r6_inheritance),
         RuleSpec("C01-R7", "expected types are only narrowed, under the subtype flag", 4, r7_narrowing),
         RuleSpec("C01-R8", "call / constructor nodes assembled from the selected candidate", 3, r8_call_assembly),
-        RuleSpec("C01-R9", "inherited members are deep copies with substituted types", 3, r9_inherited_members),
+        RuleSpec("C01-R9", "inherited members are deep copies with substituted types", 9, r9_inherited_members),
+        RuleSpec("C01-R10", "declared supertypes of the built-in types lie within the target language's lattice", 60, r10_builtin_lattice),
     ]
 
 
